@@ -37,6 +37,15 @@ def scenarios(tier):
             else:
                 bound = 2 if quick else None
             jobs.append((scn, bound, 60 if quick else 900, 1, ai))
+            has_join = any(t.get('join') for t in prog['tasks'].values())
+            if has_join and (ai < 2 or not quick):
+                # joins are refreshed through scheduler jobs: the same
+                # scenario over the real DefaultScheduler (in-memory
+                # dispatcher + pool jobs as separate steps)
+                jobs.append((common.variant(scn, '/dm',
+                                            scheduler='default_mem'),
+                             2 if quick else 3, 60 if quick else 900, 1,
+                             ai + 0.5))
     # every program first with its first assignment, then the second, ...
     jobs.sort(key=lambda j: j[4])
     return [j[:4] for j in jobs]
@@ -45,14 +54,14 @@ def scenarios(tier):
 def main(tier):
     rep = common.Report(PROP, tier)
     jobs = scenarios(tier)
-    deadline = time.time() + (150 if tier == 'quick' else 2400)
+    deadline = time.time() + (200 if tier == 'quick' else 2400)
     res = common.parallel_map(common.explore_job, jobs, deadline=deadline)
     rep.add_explore_results(jobs, res)
     rep.assumptions = [
         'transactions are atomic steps (SQLite; Mistral serialises them with '
         'a process lock): overlap inside transactions under READ COMMITTED is '
         'not explored',
-        'one engine, one executor, one legacy scheduler instance; integrity '
+        'one engine, one executor, one scheduler instance (legacy; programs with joins also over the DefaultScheduler without its store poll); integrity '
         'check and heartbeats off (repair mechanisms would mask lost '
         'wake-ups)',
         'visited set stores 128-bit hashes of canonical states (collision '
